@@ -130,6 +130,18 @@ func init() {
 				return nil
 			}
 			var out []interface{}
+			// simplify the schedule toward run-to-completion: keep a prefix of the recorded
+			// release sequence, run the rest sequentially
+			if n := len(s.Sched.Script); n > 0 {
+				for _, k := range []int{0, n / 4, n / 2, n * 3 / 4, n - 8, n - 2, n - 1} {
+					if k >= 0 && k < n {
+						c2 := *s
+						c2.Sched.Script = append([]int{}, s.Sched.Script[:k]...)
+						c2.Sched.Policy = "sequential"
+						out = append(out, &c2)
+					}
+				}
+			}
 			for k := range s.Clients {
 				if len(s.Clients) > 2 {
 					n := *s
